@@ -252,7 +252,22 @@ def main():
     ap.add_argument('--oracle-n', type=int, default=400)
     ap.add_argument('--seed', type=int, default=1)
     ap.add_argument('--scratch', default='/tmp/mut')
+    ap.add_argument('--rerun', help='re-evaluate only the mutants that survived everything in this results file')
+    ap.add_argument('--emit', nargs=3, metavar=('FILE', 'IDX', 'DIR'),
+                    help='write a copy of /repo (penman/, tests/) with mutant IDX of FILE into DIR')
     args = ap.parse_args()
+    if args.emit:
+        f, idx, d = args.emit
+        for meta, new in mutants_of(f):
+            if meta['idx'] == int(idx):
+                shutil.rmtree(d, ignore_errors=True)
+                os.makedirs(d)
+                shutil.copytree(os.path.join(REPO, 'penman'), os.path.join(d, 'penman'))
+                shutil.copytree(os.path.join(REPO, 'tests'), os.path.join(d, 'tests'))
+                open(os.path.join(d, 'penman', f), 'w', encoding='utf-8').write(new)
+                print(json.dumps(meta))
+                return
+        sys.exit('no such mutant')
     if args.summary:
         return summary(args.summary)
     sys.path.insert(0, os.path.join(VERIF, 'harness'))
@@ -265,6 +280,14 @@ def main():
     for f in args.files.split(','):
         for meta, new in mutants_of(f):
             todo.append((meta, new))
+    if args.rerun:
+        keep = set()
+        for l in open(args.rerun):
+            r = json.loads(l)
+            if r['status'] == 'passes-tests' and not r['corr'] and not r['oracle'] \
+                    and r['file'] not in ('models/amr.py', '__init__.py'):
+                keep.add((r['file'], r['idx']))
+        todo = [(m, n) for m, n in todo if (m['file'], m['idx']) in keep]
     if args.limit:
         import random
         random.Random(args.seed).shuffle(todo)
